@@ -652,6 +652,11 @@ def gen_spec(rng: random.Random):
     if rng.random() < 0.3:
         # explicit masses: default mass (rounded to 1e-6) + a clearly non-default offset, sub-1e-6 digits away from boundaries
         spec["masses_delta_v"] = [rng.choice([-1, 1]) * (rng.randint(1, 50) * 10**6 + rng.randint(0, 999999) * 100 + rng.choice(SAFE_SUB)) for _ in range(nat)]
+        if nat >= 2 and rng.random() < 0.5:
+            # ... and some atoms only a few rounding units (1e-6 u) off the tabulated mass: a supplied mass is a listed field
+            # whatever it is close to (the rest of the array stays clearly non-default, so the array is kept)
+            for a in rng.sample(range(nat), rng.randint(1, nat - 1)):
+                spec["masses_delta_v"][a] = rng.choice([-1, 1]) * (rng.choice([0, 1, 2, 5, 15, 40, 150]) * 100 + rng.choice(SAFE_SUB))
     # fragments: contiguous split
     spec["fragments"] = None
     if nat >= 2 and rng.random() < 0.5:
